@@ -223,11 +223,11 @@ impl Alphabet {
     pub fn churn() -> Self {
         Alphabet {
             insert: true,
-            try_insert: false,
+            try_insert: true,
             remove: true,
             remove_variants: false,
             get_mut: false,
-            entry: vec![],
+            entry: vec![EAct::OrInsert],
             entry_ref: vec![],
             extend: vec![],
             from_iter: false,
